@@ -239,6 +239,16 @@ def _nested_attempt(self):
         att["t1"] = k.time()
         self.s.count("nested_lockerror")
         return
+    except (SimAbort, SimKilled, HarnessError):
+        raise
+    except Exception as e:  # noqa
+        # anything but LockError means the second attempt got past the lock (far enough to do
+        # I/O of its own, e.g. into a fault that was armed for this task's open writer)
+        att["outcome"] = "nested_proceeded"
+        att["b"] = k.seq
+        att["t1"] = k.time()
+        att["error"] = "%s: %s" % (type(e).__name__, e)
+        return
     att["outcome"] = "nested_proceeded"
     att["b"] = k.seq
     att["t1"] = k.time()
